@@ -216,3 +216,35 @@ func convertTrace(evs []verif.Event, w *hlib.NDJSON, report *Report) int {
 	}
 	return n
 }
+
+// convertShutdown: the events of a run's first lifetime that the close protocol (spec/NsqdShutdownTrace.tla) speaks about
+func convertShutdown(evs []verif.Event, w *hlib.NDJSON) int {
+	S := func(e verif.Event, k string) string { return hlib.KVStr(e, k) }
+	B := func(e verif.Event, k string) bool { v, _ := hlib.KVGet(e, k).(bool); return v }
+	n := 0
+	put := func(m map[string]interface{}) { w.Put(m); n++ }
+	put(map[string]interface{}{"ev": "Reset"})
+	for _, e := range evs {
+		switch e.Ev {
+		case "HRestarted":
+			return n // the second lifetime starts here
+		case "TMapAdd", "TPumpStopped", "TClosed", "TDeleted":
+			put(map[string]interface{}{"ev": e.Ev, "t": S(e, "t")})
+		case "TExit":
+			put(map[string]interface{}{"ev": e.Ev, "t": S(e, "t"), "deleted": B(e, "deleted")})
+		case "TFlush":
+			put(map[string]interface{}{"ev": e.Ev, "t": S(e, "t"), "id": S(e, "id"), "ok": B(e, "ok")})
+		case "CMapAdd":
+			put(map[string]interface{}{"ev": e.Ev, "c": S(e, "c"), "t": S(e, "t")})
+		case "CMapDel", "CDeleted", "CClosed":
+			put(map[string]interface{}{"ev": e.Ev, "c": S(e, "c")})
+		case "CExit":
+			put(map[string]interface{}{"ev": e.Ev, "c": S(e, "c"), "deleted": B(e, "deleted")})
+		case "CFlush":
+			put(map[string]interface{}{"ev": e.Ev, "c": S(e, "c"), "id": S(e, "id"), "ok": B(e, "ok")})
+		case "NExit":
+			put(map[string]interface{}{"ev": e.Ev, "stage": S(e, "stage")})
+		}
+	}
+	return n
+}
